@@ -34,10 +34,10 @@ import (
 // C20 — no request can crash or wedge a node, with production metrics enabled.
 
 type node20 struct {
-	b   backend.Backend
-	es  *etcd.RPCServer
-	bs  *brain.Server
-	m   metrics.Metrics
+	b  backend.Backend
+	es *etcd.RPCServer
+	bs *brain.Server
+	m  metrics.Metrics
 }
 
 func newNode20() *node20 {
@@ -196,7 +196,9 @@ func requests20(reduced bool) []req20 {
 			add(fmt.Sprintf("brain.Watch(key=%s,rev=%d)", kname(k), r), func(n *node20) error {
 				wctx, cancel := context.WithCancel(ctx)
 				var err error
-				done := vrt.Go(func() { err = n.bs.Watch(&proto.WatchRequest{Key: k, Revision: uint64(r)}, &hx.BrainWatchStream{Ctx: wctx}) })
+				done := vrt.Go(func() {
+					err = n.bs.Watch(&proto.WatchRequest{Key: k, Revision: uint64(r)}, &hx.BrainWatchStream{Ctx: wctx})
+				})
 				vrt.Quiesce()
 				cancel()
 				vrt.Join(done)
@@ -241,7 +243,10 @@ func requests20(reduced bool) []req20 {
 		return err
 	})
 	add("etcd.Put", func(n *node20) error { _, err := n.es.Put(ctx, &pb.PutRequest{Key: []byte("/r/a")}); return err })
-	add("etcd.DeleteRange", func(n *node20) error { _, err := n.es.DeleteRange(ctx, &pb.DeleteRangeRequest{Key: []byte("/r/a")}); return err })
+	add("etcd.DeleteRange", func(n *node20) error {
+		_, err := n.es.DeleteRange(ctx, &pb.DeleteRangeRequest{Key: []byte("/r/a")})
+		return err
+	})
 	add("etcd.Watch(range-stream)", func(n *node20) error { return watch20(n, []byte("/r/"), []byte("/r0"), -int64(base+1)) })
 	add("etcd.Watch(range-stream,bad-key)", func(n *node20) error { return watch20(n, []byte("\xff\xfe"), nil, -1) })
 	add("etcd.LeaseGrant", func(n *node20) error { _, err := n.es.LeaseGrant(ctx, &pb.LeaseGrantRequest{TTL: -1}); return err })
@@ -600,9 +605,9 @@ func tagName(e ast.Expr, consts map[string]string) string {
 
 func init() {
 	mc.Register(&mc.Property{
-		ID:    "C20",
-		Level: "exploration",
-		Rule: "bounded-exhaustive input enumeration on a real node (etcd and native servers over the metrics-wrapped in-memory engine with the REAL Prometheus client, fresh registry per case): every request of a value lattice (8 keys incl. nil, empty, invalid UTF-8, NUL, 1 KiB; 4 values; 7 revisions incl. negative and extreme; up to 6 range ends; 4 limits; unset sub-messages and oneofs; unsupported shapes) through etcd Txn/Range/Watch/Compact/Put/DeleteRange/LeaseGrant and native Create/Update/Delete/Get/Range/Count/ListPartition/RangeStream/Watch/Compact, singly, and every ORDERED PAIR of a reduced set (the first emission of a metric fixes its label names); after each case the node must still commit and serve a follow-up write; plus a static pass over every Emit* call site resolving name, kind and label-name list; a case is distinct by its request content",
+		ID:     "C20",
+		Level:  "exploration",
+		Rule:   "bounded-exhaustive input enumeration on a real node (etcd and native servers over the metrics-wrapped in-memory engine with the REAL Prometheus client, fresh registry per case): every request of a value lattice (8 keys incl. nil, empty, invalid UTF-8, NUL, 1 KiB; 4 values; 7 revisions incl. negative and extreme; up to 6 range ends; 4 limits; unset sub-messages and oneofs; unsupported shapes) through etcd Txn/Range/Watch/Compact/Put/DeleteRange/LeaseGrant and native Create/Update/Delete/Get/Range/Count/ListPartition/RangeStream/Watch/Compact, singly, and every ORDERED PAIR of a reduced set (the first emission of a metric fixes its label names); after each case the node must still commit and serve a follow-up write; plus a static pass over every Emit* call site resolving name, kind and label-name list; a case is distinct by its request content",
 		Assume: []string{"handlers are called directly (gRPC transport and protobuf decoding are not exercised; requests are the structures a decoder can produce: no nil elements in repeated fields)", "leader role; in-memory engine behind the storage metrics wrapper"},
 		Exec:   c20Exec,
 		Drive: func(c *mc.Ctx) {
